@@ -461,9 +461,10 @@ def _oracle(case, obs, part, book, lat):
                         for pr in book.add(dl, cl):
                             if pr[0] == "distance":
                                 F("C15.code_distance", "distance", "stored code words of lane data %s and %s differ in only %d bits (%s vs %s); SECDED needs >= 4"
-                                  % (hx(pr[2]), hx(pr[3]), pr[1], hx(pr[4]), hx(pr[5])), dict(kind="case"))
+                                  % (hx(pr[2]), hx(pr[3]), pr[1], hx(pr[4]), hx(pr[5])), dict(kind="dist", a=pr[2], b=pr[3]))
                             else:
-                                F("C15.code_distance", "nondeterministic", "lane data %s stored as %s and as %s" % (hx(pr[1]), hx(pr[2]), hx(pr[3])), dict(kind="case"))
+                                F("C15.code_distance", "nondeterministic", "lane data %s stored as %s and as %s" % (hx(pr[1]), hx(pr[2]), hx(pr[3])),
+                                  dict(kind="dist", a=pr[1], b=pr[1]))
                 wi += 1
                 continue
             # ---- read
@@ -703,6 +704,12 @@ def minimal_cases(case, f):
         for d in ([0, r["data"]] if r["data"] else [0]):
             out.append(dict(cfg=cfg, part=case["part"], segs=[dict(ops=[wr(0, d, fb), rd(0)], flips=[r["mask"]], inject=r.get("inject", 0))],
                             slave=DEFAULT_SLAVE, wait_reads=False))
+    elif r.get("kind") == "dist":
+        # the two lane data words side by side in every lane of two writes: the pair is then inside one case
+        k, bc, wto = cfg
+        wa = sum(r["a"] << (ln * k) for ln in range(bc))
+        wb = sum(r["b"] << (ln * k) for ln in range(bc))
+        out.append(dict(cfg=cfg, part=case["part"], segs=[dict(ops=[wr(0, wa, fb), wr(1, wb, fb)], flips=[], inject=0)], slave=DEFAULT_SLAVE, wait_reads=False))
     elif r.get("kind") == "be":
         cfgs = [cfg]
         if f["clause"] == "C15.we_error_on_full_write":
